@@ -109,6 +109,7 @@ theorem specStep_untouched (src : Option Src) (A : Cat) (op : Op) (p : Src) (h :
     simp only [specStep]
     rw [Cat.col_setFrame_ne _ h.2, Cat.col_setFrame_ne A h.1]
   | reopen d => rfl
+  | view r => rfl
 
 /-! ### a decidable check for `HistLinked` (used by the examples) -/
 
